@@ -17,8 +17,10 @@ import time
 
 ROOT = os.path.dirname(os.path.dirname(os.path.abspath(__file__)))
 SPEC = os.path.join(ROOT, "spec")
-EVID = os.path.join(ROOT, "evidence")
-REPLAYS = os.path.join(ROOT, "replays")
+# VERIF_OUT_DIR: scratch runs against a patched copy (bin/try_patch) keep their evidence and replays out of /verif
+_OUT = os.environ.get("VERIF_OUT_DIR") or ROOT
+EVID = os.path.join(_OUT, "evidence")
+REPLAYS = os.path.join(_OUT, "replays")
 WORK = os.path.join(ROOT, "work")
 NCPU = os.cpu_count() or 8
 
